@@ -713,6 +713,49 @@ class World:  # pylint: disable=too-many-instance-attributes,too-many-public-met
             dst.model[hkey(dst.hash_type, data)] = data
         return {'requested': sorted(set(present)), 'mapping': mapping, 'dst_before': dst_before, 'src': src.name}
 
+    def op_read(self, side, op):
+        """Read some objects the way a client would (single / bulk / chunked stream with a seek / metadata) and compare
+        with the model. Under an injected fault the call may raise; it may never hand back wrong bytes or a wrong size."""
+        handle = self.handle(side, op)
+        keys = [k for k in dict.fromkeys(self.model_key(side, j) for j in op.get('keys', [0])) if k]
+        if not keys:
+            self.stats['skipped'] += 1
+            return {'skipped': True}
+        how = op.get('how', 'single')
+        if how == 'single':
+            for key in keys:
+                got = handle.get_object_content(key)
+                if got != side.model[key]:
+                    self.fail('wrong-bytes', f'get_object_content key={key[:12]} got len {len(got)} expected {len(side.model[key])}')
+        elif how == 'bulk':
+            got = handle.get_objects_content(keys, skip_if_missing=bool(op.get('skip', True)))
+            for key in keys:
+                if got.get(key) != side.model[key]:
+                    self.fail('wrong-bytes', f'get_objects_content key={key[:12]}: {"missing" if got.get(key) is None else len(got[key])} expected {len(side.model[key])}')
+        elif how == 'meta':
+            metas = dict(handle.get_objects_meta(keys))
+            for key in keys:
+                if metas[key].size != len(side.model[key]):
+                    self.fail('wrong-size', f'get_objects_meta key={key[:12]} size={metas[key].size} expected {len(side.model[key])}')
+        else:  # chunked streams, with a seek to the end and back (forces the loose cache of compressed packed objects)
+            with handle.get_objects_stream_and_meta(keys) as triplets:
+                for key, stream, meta in triplets:
+                    data = side.model[key]
+                    if meta.size != len(data):
+                        self.fail('wrong-size', f'stream meta key={key[:12]} size={meta.size} expected {len(data)}')
+                    head = stream.read(3)
+                    end = stream.seek(0, 2)
+                    stream.seek(min(1, len(data)))
+                    rest = b''
+                    while True:
+                        chunk = stream.read(op.get('chunk', 1000))
+                        if not chunk:
+                            break
+                        rest += chunk
+                    if head != data[:3] or end != len(data) or rest != data[min(1, len(data)):]:
+                        self.fail('wrong-bytes', f'stream key={key[:12]}: head/seek/rest differ from the {len(data)} stored bytes')
+        return {'read': keys}
+
     def op_reopen(self, side, op):
         idx = op.get('h', 0) % len(side.handles)
         side.handles[idx].close()
